@@ -468,6 +468,9 @@ def run(rep: Report, tier: str):
     check_class_level_state(repo, rep, rule="C09.stack-class", only={"fickling.fickle.Stack", "fickling.fickle.Interpreter", "fickling.fickle.ModuleBody"})
     check_trace(repo, rep)
     check_step(repo, rep)
+    from ..pitfalls import check_pitfalls, handler_functions
+
+    check_pitfalls(repo, rep, "C09.stack-effect", handler_functions(repo))
     sums = all_summaries(repo)
     rep.units = {"opcode_classes": len(sums), "paths": sum(len(s.paths) for s in sums), "pickletools_rows": len(pickletools.opcodes)}
     check_stack_effect(repo, rep, sums)
